@@ -74,3 +74,9 @@ TEXT["C15"] = {
     "design_ref": "DESIGN.md section 3, C15",
     "level_note": "Sampling. Exact answer orders and cancellation points are decided in C16 with controlled schedules.",
 }
+TEXT["C09"] = {
+    "technique": "property-based testing against a naive set model: complete enumeration of a 60-triple universe (all subsets <= 3, all pairs of subsets <= 2 / <= 2x3) plus rapid-generated arbitrary fields and scope strings; native fuzz target for ParseScope",
+    "level_text": "Every run enumerates all subsets of size <= 3 of a universe of 60 triples that mixes known and unknown types/actions, empty resources and the catalog scope (single-set laws: Len, IsEmpty, Iter exact/strict/stoppable, Holds for all 60 triples, presentation independence, print/parse round trip on the stated domain) and all 3.35M ordered pairs of subsets of size <= 2 (thorough: 66M pairs |A|<=2,|B|<=3) for Union / Contains / Equal against a Go map model. rapid adds arbitrary field values (whitespace, colons, commas, empty, non-ASCII) and scope strings with grouped actions, duplicates and malformed fields: ParseScope must equal the documented tokenisation, keep the original text, and a union that adds nothing must return the receiver with its text unchanged.",
+    "design_ref": "DESIGN.md section 3, C09",
+    "level_note": "Exhaustive over the small universe only; larger sets and arbitrary strings are sampled.",
+}
